@@ -410,15 +410,20 @@ func (m *MetricStorage) applyGroupOperations(group string, ops []operation.Metri
 			continue
 		}
 		labels := MergeLabels(op.Labels, commonLabels)
+		// Apply each operation once: 'add' and 'set' shortcuts parsed from a file
+		// have Action and Value set along with Add or Set.
 		if op.Action == "add" && op.Value != nil {
 			m.groupedVault.CounterAdd(group, op.Name, *op.Value, labels)
+			continue
 		}
 		//nolint:staticcheck
 		if op.Add != nil {
 			m.groupedVault.CounterAdd(group, op.Name, *op.Add, labels)
+			continue
 		}
 		if op.Action == "set" && op.Value != nil {
 			m.groupedVault.GaugeSet(group, op.Name, *op.Value, labels)
+			continue
 		}
 		//nolint:staticcheck
 		if op.Set != nil {
